@@ -9,9 +9,11 @@ import (
 	"runtime"
 	"runtime/debug"
 	"sort"
+	"strings"
 	"time"
 	_ "time/tzdata"
 
+	"verif/harness/adapter"
 	"verif/harness/gen"
 	"verif/harness/wk"
 )
@@ -73,6 +75,18 @@ func main() {
 	c := &Ctx{Prop: *prop, Tier: *tier, Seed: *seed, Batch: *batch, NBatch: *nbatch, MBatch: *mbatch, MNBatch: *mnbatch, Mode: *mode, start: time.Now()}
 	c.Res = wk.New(*prop, *tier, *seed, *batch)
 	c.Res.Env = fmt.Sprintf("TZ=%s mode=%s GOMAXPROCS=%d", os.Getenv("TZ"), *mode, runtime.GOMAXPROCS(0))
+	if *prop != "C04" { // C04 reports panics itself, with the input that caused them
+		adapter.OnPanic = func(op string, r any, stack string) {
+			if !strings.Contains(stack, "github.com/uhppoted/uhppote-core/") {
+				c.Res.Inconcl(fmt.Sprintf("panic outside the library while calling %s: %v", op, r))
+				return
+			}
+			if len(stack) > 3000 {
+				stack = stack[:3000]
+			}
+			c.Res.Violate(*prop+":panic:"+op, fmt.Sprintf("%s panicked instead of returning a value or an error: %v", op, r), map[string]any{"op": op, "panic": fmt.Sprint(r), "stack": stack}, -1)
+		}
+	}
 	f(c)
 	c.Res.Note("wall_s", fmt.Sprintf("%.2f", time.Since(c.start).Seconds()))
 	if *out == "" {
